@@ -53,7 +53,12 @@ theorem fs_at {P : FS → Prop} {b : St} (t : Rat) (h : P b.fs) : P (b.at t).fs 
 theorem fs_fanFailedIf {P : FS → Prop} {b : St} (s : Json) (h : P b.fs) : P (b.fanFailedIf s).fs := by
   unfold St.fanFailedIf; split <;> exact h
 theorem fs_iterEnd {P : FS → Prop} {b : St} (n : Str) (i : Nat) (r : Res) (h : P b.fs) : P (b.iterEnd n i r).fs := by
-  unfold St.iterEnd; split <;> exact h
+  unfold St.iterEnd
+  split
+  · split <;> exact h
+  · exact h
+theorem fs_taskSilent {P : FS → Prop} {b : St} (c : List ((Str × Json) × Nat)) (res : Str) (p : Json) (t : Rat)
+    (h : P b.fs) : P (b.taskSilent c res p t).fs := h
 theorem fs_taskCall {P : FS → Prop} {b : St} (c : List ((Str × Json) × Nat)) (res : Str) (p : Json) (ev : Ev) (t : Rat)
     (h : P b.fs) : P (b.taskCall c res p ev t).fs := h
 theorem fs_fanFail {P : FS → Prop} {b : St} (h : P b.fs) : P ({ b with fanFail := true } : St).fs := h
@@ -75,8 +80,8 @@ structure PresAll (P : FS → Prop) (env : Env) (n : Nat) : Prop where
   joinAndLeave : ∀ states name state data ctx r res st, P st.fs →
     P (joinAndLeave env n states name state data ctx r res st).2.fs
   runBranches : ∀ bs params ctx st, P st.fs → P (runBranches env n bs params ctx st).2.fs
-  runItems : ∀ proc sel input items i mc be ctx st, P st.fs →
-    P (runItems env n proc sel input items i mc be ctx st).2.fs
+  runItems : ∀ proc sel input items i mc be ctx bad st, P st.fs →
+    P (runItems env n proc sel input items i mc be ctx bad st).2.fs
 
 theorem presAll_zero (P : FS → Prop) (env : Env) : PresAll P env 0 := by
   constructor <;> intros <;> simp [runFrom, leave, handleErr, runState, joinAndLeave, runBranches, runItems] <;>
@@ -104,6 +109,7 @@ local macro "pres_step" : tactic => `(tactic|
     | with_reducible apply fs_waitUntil
     | with_reducible apply fs_iterEnd
     | with_reducible apply fs_taskCall
+    | with_reducible apply fs_taskSilent
     | with_reducible apply fs_push
     | with_reducible apply ops.st_handover
     | with_reducible apply ops.st_closeKeep
@@ -209,12 +215,14 @@ theorem pres_runBranches_step (bs : List Json) (params ctx : Json) (st : St) (h 
     · exact h
 
 theorem pres_runItems_step (proc : Json) (sel : Option Json) (input : Json) (items : List Json) (i mc : Nat)
-    (be : Rat) (ctx : Json) (st : St) (h : P st.fs) :
-    P (runItems env (n + 1) proc sel input items i mc be ctx st).2.fs := by
+    (be : Rat) (ctx : Json) (bad : Bool) (st : St) (h : P st.fs) :
+    P (runItems env (n + 1) proc sel input items i mc be ctx bad st).2.fs := by
   cases items with
   | nil => simp only [runItems]; exact h
   | cons item items =>
     simp only [runItems]
+    split
+    · exact h
     have g00 : P (if mc ≠ 0 ∧ i ≠ 0 ∧ i % mc = 0 then
         (st.waitUntil be).batch (ctxStateName ctx) (List.replicate (min mc (items.length + 1)) ((fldStr proc "StartAt").getD []))
       else st).fs := by
@@ -320,6 +328,8 @@ theorem Bal.fanFailedIf {a b : St} (s : Json) (h : Bal a b) : Bal a (b.fanFailed
   unfold St.fanFailedIf; split <;> exact h
 theorem Bal.taskCall {a b : St} (c : List ((Str × Json) × Nat)) (res : Str) (p : Json) (ev : Ev) (t : Rat)
     (h : Bal a b) : Bal a (b.taskCall c res p ev t) := h
+theorem Bal.taskSilent {a b : St} (c : List ((Str × Json) × Nat)) (res : Str) (p : Json) (t : Rat)
+    (h : Bal a b) : Bal a (b.taskSilent c res p t) := h
 
 theorem BalB.combine {a st2 : St} (r : Res) (t1 : Rat) (rest : Except Res (List Json)) (tOk : Rat)
     (h : BalB a st2) : BalB a (fanCombine r t1 rest st2 tOk).2 := by
@@ -334,7 +344,7 @@ structure BalAll (env : Env) (n : Nat) : Prop where
   runState : ∀ states name state data ctx r st, Bal st (runState env n states name state data ctx r st).2
   joinAndLeave : ∀ states name state data ctx r res st, Bal st (joinAndLeave env n states name state data ctx r res st).2
   runBranches : ∀ bs params ctx st, BalB st (runBranches env n bs params ctx st).2
-  runItems : ∀ proc sel input items i mc be ctx st, BalB st (runItems env n proc sel input items i mc be ctx st).2
+  runItems : ∀ proc sel input items i mc be ctx bad st, BalB st (runItems env n proc sel input items i mc be ctx bad st).2
 
 theorem balAll_zero (env : Env) : BalAll env 0 := by
   constructor <;> intros <;> simp [runFrom, leave, handleErr, runState, joinAndLeave, runBranches, runItems] <;>
@@ -378,6 +388,7 @@ local macro "bal_step" : tactic => `(tactic|
     | with_reducible apply Bal.fanFailedIf
     | with_reducible apply Bal.waitUntil
     | with_reducible apply Bal.taskCall
+    | with_reducible apply Bal.taskSilent
     | with_reducible apply Bal.push
     | with_reducible apply Bal.handover
     | with_reducible apply Bal.closeKeep
@@ -450,7 +461,7 @@ theorem bal_runState_step (states : Json) (name : Str) (state data ctx : Json) (
     · split
       · bal_step
       · apply BalAll.thenJoin env n ih
-        refine bal_fanout _ ?_ (ih.runItems _ _ _ _ _ _ _ _ _)
+        refine bal_fanout _ ?_ (ih.runItems _ _ _ _ _ _ _ _ _ _)
         rw [St.launch, St.fr, fs_launch_outer]
         repeat' split
         all_goals rfl
@@ -474,12 +485,14 @@ theorem bal_runBranches_step (bs : List Json) (params ctx : Json) (st : St) :
     · exact BalB.refl _
 
 theorem bal_runItems_step (proc : Json) (sel : Option Json) (input : Json) (items : List Json) (i mc : Nat)
-    (be : Rat) (ctx : Json) (st : St) :
-    BalB st (runItems env (n + 1) proc sel input items i mc be ctx st).2 := by
+    (be : Rat) (ctx : Json) (bad : Bool) (st : St) :
+    BalB st (runItems env (n + 1) proc sel input items i mc be ctx bad st).2 := by
   cases items with
   | nil => simp only [runItems]; exact BalB.refl _
   | cons item items =>
     simp only [runItems]
+    split
+    · exact BalB.refl _
     have g00 : BalB st (if mc ≠ 0 ∧ i ≠ 0 ∧ i % mc = 0 then
         (st.waitUntil be).batch (ctxStateName ctx) (List.replicate (min mc (items.length + 1)) ((fldStr proc "StartAt").getD []))
       else st) := by
@@ -501,8 +514,10 @@ theorem bal_runItems_step (proc : Json) (sel : Option Json) (input : Json) (item
             (ctxStateName ctx) i (runFrom env n states start params ctx 0 ((st0.push (.iterStarted (ctxStateName ctx) i)).startBranch)).1).endBranch
             (isFailed (runFrom env n states start params ctx 0 ((st0.push (.iterStarted (ctxStateName ctx) i)).startBranch)).1)).at st0.clock) := by
           unfold St.iterEnd
-          split <;> exact g1.2
-        exact (g00.trans g2).trans (ih.runItems _ _ _ _ _ _ _ _ _)
+          split
+          · split <;> exact g1.2
+          · exact g1.2
+        exact (g00.trans g2).trans (ih.runItems _ _ _ _ _ _ _ _ _ _)
       · exact g00
 
 end bstep
